@@ -13,7 +13,7 @@ from .. import env, refmath
 
 ID = "C03"
 LEVEL = "exploration"
-BUDGET = {"quick": 64, "thorough": 900}
+BUDGET = {"quick": 64, "thorough": 3000}
 SHARDS = {"quick": 8, "thorough": 16}
 SHRINK = {"quick": False, "thorough": True}
 RULE = (
